@@ -665,6 +665,32 @@ pub fn run_c05(tier: Tier) -> i32 {
     }
     cases.extend(long_line_cases(thorough));
     cases.extend(first_flush_cases());
+    // spellings: the same kind of scheme written in every way the text format allows (spaces, CRLF, leading zeros and
+    // signs, key order, duplicate keys, stop not first / duplicated / larger than the number of lines)
+    for text in [
+        "stop = 3\n1 = 30-30\n2 = 40-40",
+        "stop=3\r\n1=30-30\r\n2=40-40\r\n",
+        "stop=03\n1=30-30\n2=40-40",
+        "stop=+3\n1=30-30\n2=40-40",
+        "stop=3\n01=30-30\n2=40-40",
+        "stop=3\n 1=30-30\n2 =40-40",
+        "stop=3\n1=30-30\n1=50-50\n2=40-40",
+        "stop=3\n2=40-40\n1=30-30",
+        "stop=9\n1=30-30",
+        "1=30-30\nstop=3\n2=40-40",
+        "stop=3\nstop=2\n1=30-30\n2=40-40",
+        "stop=2\nstop=3\n1=30-30\n2=40-40",
+        "stop=3\n1=30-30,\n2=,40-40",
+        "stop=3\n1=30 - 30\n2=40-40 , c , 50-50",
+        "\n\nstop=3\n\n1=30-30\n\n2=40-40\n\n",
+        "stop=3\n+1=30-30\n2=40-40",
+        "stop=3\n1=30-30\n2=40-40\n3=60-60\n4=70-70",
+        "stop=4294967295\n1=30-30\n2=40-40",
+    ] {
+        for first in [false, true] {
+            cases.push(PadCase { scheme: text.to_string(), draw: DrawPolicy::Min, payloads: vec![10, 10, 10, 10, 10], real_first_batch: first, server_role: false, dest_first: true });
+        }
+    }
     // the default scheme with the real first batch and every draw policy
     for draw in [DrawPolicy::Min, DrawPolicy::Max, DrawPolicy::MinPlus1, DrawPolicy::Mid] {
         cases.push(PadCase { scheme: DEFAULT.to_string(), draw, payloads: vec![100, 2000, 5, 5, 5, 5, 5, 5, 5, 5], real_first_batch: true, server_role: false, dest_first: true });
@@ -761,7 +787,7 @@ pub fn run_c05(tier: Tier) -> i32 {
     }
     let cap = Duration::from_secs(if thorough { 900 } else { 40 });
     run_items(&mut rep, "C05", tier, c05_items(tier), DxOpts { time_cap: cap, det_replays: 8, max_violations: 3, vacuity_check: true });
-    rep.finish("IX: every scheme line of <=2 (thorough 3) entries over 12 entry forms x stop x draw policy {min,max,min+1} x 10 payload sizes per packet (+ every line of 3..4 (thorough 5) entries over the reduced alphabet {c, 7, 8, 30, 100-400}), write lengths of every flush-delimited batch checked by the reference acceptor for its line; preamble for every line 0, and for sessions the real Client dials after a push (child processes against a scripted TLS server); packet numbering and the stop rule across a push in mid-session (stop x stop x push instant); DX: 2-3 concurrent writers on a fresh session with <= B pre-emptions (wire order vs packet index); non-trivial = distinct case with an actually shaped packet / trace with >= 1 deviation")
+    rep.finish("IX: every scheme line of <=2 (thorough 3) entries over 12 entry forms x stop x draw policy {min,max,min+1} x 10 payload sizes per packet (+ 18 spellings of one scheme: spaces, CRLF, leading zeros / signs, key order, duplicate keys and stops; + every line of 3..4 (thorough 5) entries over the reduced alphabet {c, 7, 8, 30, 100-400}), write lengths of every flush-delimited batch checked by the reference acceptor for its line; preamble for every line 0, and for sessions the real Client dials after a push (child processes against a scripted TLS server); packet numbering and the stop rule across a push in mid-session (stop x stop x push instant); DX: 2-3 concurrent writers on a fresh session with <= B pre-emptions (wire order vs packet index); non-trivial = distinct case with an actually shaped packet / trace with >= 1 deviation")
 }
 
 pub fn replay_c05(file: &str) -> i32 {
